@@ -325,6 +325,8 @@ class C10Refresh:
         ops = sim.h.solver.operators
         if ops.link_exponents is None:
             return []
+        if not np.all(np.isfinite(np.asarray(ops.link_exponents))):
+            return []  # a blown-up (overflowed) screening iteration: nothing to compare
         fresh = self._fresh(sim, ops.link_exponents)
         self.compared += 1
         V = []
@@ -368,6 +370,8 @@ class C10Refresh:
                 A = A + np.asarray(cur["in"]["induced_vector_potential"])
             else:
                 A = A + np.asarray(sim._last_A_induced)
+        if not np.all(np.isfinite(A)):
+            return []
         Lref = c.rm.cov_laplacian(A, pinned=c.pinned)
         L = rec["kw"]["psi_laplacian"].toarray()
         err = max_err(L, Lref)
@@ -467,6 +471,12 @@ class C12TimeStep:
             new = cur.get("last_s")
             if new is None:
                 new = np.abs(np.asarray(cur["out"]["psi"])) ** 2
+            else:
+                # sites held at the terminal value carry |terminal_psi|^2, not the raw root
+                c = get_ctx(sim)
+                if c.terminal_psi is not None and len(c.pinned):
+                    new = np.array(new, copy=True)
+                    new[c.pinned] = abs(c.terminal_psi) ** 2
             self.dpsi.append(float(np.max(np.abs(new - old))))
             win = o.get("adaptive_window", 10)
             if cur["step"] > win:
